@@ -966,6 +966,7 @@ func combos(jobs []job, uni []*pattern, k int) []job {
 }
 
 func run(c *mc.Ctx) {
+	defer runRaw(c)
 	setup()
 	// internal cap well below the 15 minutes allowed for the thorough tier
 	if d := c.Start.Add(13 * time.Minute); c.Deadline.After(d) {
@@ -1072,6 +1073,11 @@ func run(c *mc.Ctx) {
 }
 
 func replay(c *mc.Ctx, raw json.RawMessage) {
+	var rc RawCase
+	if json.Unmarshal(raw, &rc) == nil && rc.Target != "" && len(rc.Set) > 0 {
+		rawOne(c, rc.Set, rc.Target, true)
+		return
+	}
 	var cs Case
 	if json.Unmarshal(raw, &cs) != nil || len(cs.Routes) == 0 || len(cs.Routes) > maxRoutes {
 		return
